@@ -348,6 +348,30 @@ def clone_value(v, memo):
     return v
 
 
+class _Chain(tuple):
+    """(root, path) of the pointee of a reference argument at call time; `.chain` holds the names along up to
+    three further dereferences (pointers stored in locals may be overwritten later, names are not)."""
+
+    def __new__(cls, t, a):
+        if t is None:
+            self = super().__new__(cls, ())
+            self.chain = []
+            return self
+        self = super().__new__(cls, t)
+        ch = []
+        n = a
+        for _ in range(4):
+            n = n.target if n is not None else None
+            if n is None:
+                break
+            ch.append((n.root, n.path))
+        self.chain = ch
+        return self
+
+    def __bool__(self):
+        return len(self) > 0
+
+
 class Event:
     __slots__ = ("callee", "norm", "args", "ret", "site", "depth", "kind", "crate", "tnames")
 
@@ -356,6 +380,8 @@ class Event:
         # symbolic names (root, path) of the pointees of reference arguments *at call time* (before any havoc)
         self.tnames = tnames if tnames is not None else [
             ((a.target.root, a.target.path) if (a is not None and a.target is not None) else None) for a in args]
+        if isinstance(self.tnames, list) and (not self.tnames or not isinstance(self.tnames[0], _Chain)):
+            self.tnames = [_Chain(t, a) for t, a in zip(self.tnames, args)] if tnames is None else self.tnames
         self.callee = callee
         self.norm = norm
         self.args = args
@@ -440,6 +466,13 @@ def strip_turbofish(s):
         out.append(s[i])
         i += 1
     return "".join(out)
+
+
+def clean_path(text):
+    t = strip_turbofish(strip_lifetimes(text))
+    while "::::" in t:
+        t = t.replace("::::", "::")
+    return t
 
 
 def normalise_callee(text):
@@ -787,7 +820,7 @@ class Engine:
         if t == "()":
             return mk_unit()
         # unit enum variants of known enums, e.g. `const TokenKind::Eol` / `Option::<T>::None`
-        nt = strip_turbofish(strip_lifetimes(t))
+        nt = clean_path(t)
         m = re.fullmatch(r"(?:[\w]+::)*([A-Za-z_]\w*)::([A-Za-z_]\w*)", nt)
         if m and self.variant_index(m.group(1), m.group(2)) is not None:
             n = Node(fresh_root("k"), ty=m.group(1))
@@ -900,7 +933,7 @@ class Engine:
                 n.length = bv64(len(rv[1]))
             return n
         if k == "agg_struct":
-            path = strip_turbofish(strip_lifetimes(rv[1]))
+            path = clean_path(rv[1])
             segs = path.split("::")
             if len(segs) >= 2 and self.variant_index(segs[-2], segs[-1]) is not None:
                 n = Node(fresh_root("e"), ty=dest_ty or segs[-2])
@@ -914,7 +947,7 @@ class Engine:
             n.fields = {i: self.operand(st, frame, o) for i, (_, o) in enumerate(rv[2])}
             return n
         if k == "agg_variant":
-            path = strip_turbofish(strip_lifetimes(rv[1]))
+            path = clean_path(rv[1])
             segs = path.split("::")
             ops = [self.operand(st, frame, o) for o in rv[2]]
             if len(segs) >= 2 and self.variant_index(segs[-2], segs[-1]) is not None:
